@@ -13,7 +13,7 @@ type DataSpec struct {
 	Period int    `json:"period"`
 }
 
-var dataClasses = []string{"text", "uniform", "nearuniform", "fib", "alpha3", "runs", "period", "tokendense", "mixed", "zeros", "sparse", "dom50", "alpha4", "pruns", "copies"}
+var dataClasses = []string{"text", "uniform", "nearuniform", "fib", "alpha3", "runs", "period", "tokendense", "mixed", "zeros", "sparse", "dom50", "alpha4", "pruns", "copies", "onerepeat", "digits"}
 
 var words = []string{"the", "of", "and", "compression", "deflate", "window", "huffman", "stream", "a", "to", "in", "is", "that", "for", "block", "literal", "distance", "length", "code", "bits", "byte", "0123456789", "\n", ", ", ". ", "Intel", "fastgo", "golang"}
 
@@ -179,6 +179,28 @@ func (d DataSpec) Bytes() []byte {
 				b[i] = b[i-dist]
 				i++
 			}
+		}
+	case "onerepeat":
+		// random bytes with a single repeated substring of 4..12 bytes that ends within the last
+		// 20 bytes: a block with exactly one match (one distance code), found at the very end
+		r.Read(b)
+		if n >= 16 {
+			l := 4 + r.Intn(9)
+			end := n - r.Intn(minInt(20, n-l-4)+1)
+			if end-l > 4 {
+				dist := 1 + r.Intn(minInt(end-l, 32768))
+				if r.Intn(2) == 0 {
+					dist = 1 + r.Intn(minInt(end-l, 300))
+				}
+				for k := 0; k < l; k++ {
+					b[end-l+k] = b[end-l+k-dist]
+				}
+			}
+		}
+	case "digits":
+		// ten symbols with codes of three to four bits: three symbols per decoding-table entry
+		for i := range b {
+			b[i] = byte('0' + r.Intn(10))
 		}
 	case "alpha4":
 		// four letters with very short codes: several symbols per decoding-table entry
